@@ -273,7 +273,7 @@ pub fn worker(ctx: &WorkerCtx) -> Report {
     }
     // (2) Fun families through the whole pipeline, with the symbol-injection closure
     {
-        let cfg = FunCfg { thorough: ctx.tier.thorough(), with_unsequenced: true };
+        let cfg = FunCfg { thorough: ctx.tier.thorough(), small_max: 0, with_unsequenced: true };
         let mut handle = |case: FunCase| {
             let closure = !case.name.starts_with("small/") || hash64(&case.name) % 8 == 0;
             check_fun_case(&case, &infos, &mut nat, closure, &mut rep);
